@@ -2,7 +2,6 @@ package parse
 
 import (
 	"bytes"
-	"errors"
 )
 
 // A tagParser can parse the body of a tag, returning the resulting Node or an error.
@@ -255,10 +254,10 @@ func parseFor(t *Tree, start Pos) (*ForNode, error) {
 	if err != nil {
 		return nil, err
 	}
-	if nam, ok := nam.(*NameExpr); ok {
-		vn = nam.Name
+	if name, ok := nam.(*NameExpr); ok {
+		vn = name.Name
 	} else {
-		return nil, errors.New("parse error: a parse error occured, expected name")
+		return nil, newExpectedError(nam.Start(), "name")
 	}
 	nxt := t.peekNonSpace()
 	if nxt.tokenType == tokenPunctuation && nxt.value == "," {
@@ -268,10 +267,10 @@ func parseFor(t *Tree, start Pos) (*ForNode, error) {
 		if err != nil {
 			return nil, err
 		}
-		if nam, ok := nam.(*NameExpr); ok {
-			vn = nam.Name
+		if name, ok := nam.(*NameExpr); ok {
+			vn = name.Name
 		} else {
-			return nil, errors.New("parse error: a parse error occured, expected name")
+			return nil, newExpectedError(nam.Start(), "name")
 		}
 	}
 	tok := t.nextNonSpace()
@@ -289,7 +288,7 @@ func parseFor(t *Tree, start Pos) (*ForNode, error) {
 	var ifCond Expr
 	if tok.tokenType == tokenName {
 		if tok.value != "if" {
-			return nil, errors.New("parse error: a parse error occured")
+			return nil, newUnexpectedValueError(tok, "if")
 		}
 		ifCond, err = t.parseExpr()
 		if err != nil {
